@@ -533,8 +533,9 @@ fn parse_expr(token_stream: &mut TokenStream, min_bind_pow: f64) -> Result<Expr,
                     token: Token::Operator(operator),
                 });
             }
-            // Binds tighter than `*` and `/`, looser than implied multiplication and `^`
-            let next_expr = parse_expr(token_stream, 3.0)?;
+            // Binds tighter than `*` and `/`, looser than implied multiplication and `^`,
+            // but never looser than the position it stands in (2^-3x is (2^-3)x like 2^3x)
+            let next_expr = parse_expr(token_stream, 3.0_f64.max(min_bind_pow))?;
             Ok(Expr::UnaryOpPrefix {
                 op: operator,
                 value: Box::new(next_expr),
